@@ -270,6 +270,8 @@ def run(ctx: core.Ctx) -> int:
     ctx.oblige("CONSUME", where, f"sensors iterated by `{itx}`", ok_sorted, file=F, func=q, construct="sensor order",
                msg=f"sensors are visited through `{itx}`, not in sorted key order of the compiled filter's sensors: the documented "
                    f"column blocks are handed to the wrong sensors")
+    pos_item = {id(i.stmt): n for n, i in enumerate(items)}
+    first_sens_pos = next(n for n, i in enumerate(items) if i.stmt is sens)
     # ---- per-sensor consumption
     n_txt = {f"len({SM}[{key}])", f"{SM}[{key}].sensor_size", f"len({SM}[{key}].readings)"}
     rd_var = split_ok = None
@@ -287,7 +289,73 @@ def run(ctx: core.Ctx) -> int:
             split_ok = True
         else:
             bad_slices.append(f"{tgt} = {v}")
-    if rest_var is not None:
+    # the same consumption written with a running offset: `o = 0` per row, per sensor `reading = rest[o : o + n]` and `o += n`.  The loop body is
+    # evaluated in statement order over affine forms a*PS + b*n + c (PS = the sizes of the sensors already visited, n = this sensor's size), so a
+    # slice taken after the offset has moved, or an offset that advances by anything but n, is seen as what it is
+    offset_form = None
+    if rest_var is not None and rd_var is None and not bad_slices:
+        def is_n(e):
+            return any(T(e) == n for n in n_txt)
+        cand_o = {i.target.id for i in in_sens if i.kind == "assign" and isinstance(i.stmt, ast.AugAssign) and isinstance(i.target, ast.Name)}
+        for O in sorted(cand_o):
+            env_ = {O: (1, 0, 0)}
+            problems = []
+
+            def aff(e):
+                if isinstance(e, ast.Name):
+                    if e.id in env_:
+                        return env_[e.id]
+                    return (0, 1, 0) if is_n(e) else None
+                if isinstance(e, ast.Constant) and isinstance(e.value, int) and not isinstance(e.value, bool):
+                    return (0, 0, e.value)
+                if isinstance(e, ast.BinOp) and isinstance(e.op, (ast.Add, ast.Sub)):
+                    l, r = aff(e.left), aff(e.right)
+                    if l is None or r is None:
+                        return None
+                    sg = 1 if isinstance(e.op, ast.Add) else -1
+                    return tuple(a + sg * b for a, b in zip(l, r))
+                return (0, 1, 0) if is_n(e) else None
+            found = []
+            for i in in_sens:
+                if i.value is not None:
+                    for sub in ast.walk(i.value):
+                        if isinstance(sub, ast.Subscript) and ast.unparse(sub.value) == rest_var and isinstance(sub.slice, ast.Slice) and sub.slice.step is None:
+                            lo = aff(sub.slice.lower) if sub.slice.lower is not None else (0, 0, 0)
+                            hi = aff(sub.slice.upper) if sub.slice.upper is not None else None
+                            found.append((lo, hi, ast.unparse(sub)))
+                if i.kind == "assign" and isinstance(i.target, ast.Name) and (i.target.id in env_ or i.target.id == O or aff(i.value) is not None):
+                    v = aff(i.value)
+                    if v is None:
+                        env_.pop(i.target.id, None)
+                        if i.target.id == O:
+                            problems.append(f"`{O}` is set to `{ast.unparse(i.value)[:40]}`")
+                    else:
+                        env_[i.target.id] = v
+            if not found:
+                continue
+            inits = [x for x in in_row if x.kind == "assign" and isinstance(x.target, ast.Name) and x.target.id == O]
+            before = [x for x in inits if pos_item[id(x.stmt)] < first_sens_pos]
+            init_ok = len(inits) == 1 and len(before) == 1 and isinstance(before[0].value, ast.Constant) and before[0].value.value == 0 \
+                and not any(x.kind == "assign" and isinstance(x.target, ast.Name) and x.target.id == O for x in items if not x.loops)
+            step_ok = env_.get(O) == (1, 1, 0)
+            slices_ok = all(lo == (1, 0, 0) and hi == (1, 1, 0) for lo, hi, _ in found) and len(found) == 1
+            offset_form = (O, init_ok, step_ok, slices_ok, found, problems)
+            break
+    if offset_form is not None:
+        O, init_ok, step_ok, slices_ok, found, problems = offset_form
+        okof = init_ok and step_ok and slices_ok and not problems
+        why_ = []
+        if not init_ok:
+            why_.append(f"the offset `{O}` does not start at 0 for every row")
+        if not step_ok:
+            why_.append(f"the offset `{O}` does not advance by exactly this sensor's size per sensor")
+        if not slices_ok:
+            why_.append("the sensor's columns are taken as " + ", ".join(f"`{t}`" for _, _, t in found) + ", not [offset : offset + size] at the offset before it advances")
+        ctx.oblige("CONSUME", where, f"per sensor: columns [{O} : {O} + size], {O} advanced by size", okof, file=F, func=q, construct="sensor split (offset form)",
+                   msg="; ".join(why_ + problems) + ": the documented column blocks are not the ones handed to the sensors")
+        rd_var = "@offset"
+        split_ok = True
+    if rest_var is not None and offset_form is None:
         if bad_slices:
             ctx.oblige("CONSUME", where, f"sensor slices {bad_slices}", False, file=F, func=q, construct="sensor split",
                        msg=f"per sensor the remainder is sliced as {bad_slices}; required the next len(sensor) columns and the remainder after them")
@@ -300,7 +368,21 @@ def run(ctx: core.Ctx) -> int:
     upd_l = [(i, c) for i in in_sens for c in calls_in(i, ".sensor_model")]
     rname = None
     okr = False
-    if len(mk) == 1 and rd_var is not None:
+    if len(mk) == 1 and rd_var == "@offset":
+        # offset form: the data argument is the (checked) slice, or a local holding it, reshaped to a column of the sensor's size
+        i, c = mk[0]
+        rname = ast.unparse(i.target) if i.target is not None else None
+        d = next((k.value for k in c.keywords if k.arg == "data"), None)
+        okr = len(c.args) == 1 and T(c.args[0]) == key and d is not None and isinstance(d, ast.Call) and isinstance(d.func, ast.Attribute) and d.func.attr == "reshape" \
+            and len(d.args) == 1 and isinstance(d.args[0], ast.Tuple) and len(d.args[0].elts) == 2 and any(T(d.args[0].elts[0]) == n for n in n_txt) \
+            and T(d.args[0].elts[1]) == "1"
+        if okr:
+            src_ = d.func.value
+            if isinstance(src_, ast.Name):
+                defs_ = [x.value for x in in_sens if x.kind == "assign" and isinstance(x.target, ast.Name) and x.target.id == src_.id]
+                src_ = defs_[0] if len(defs_) == 1 else src_
+            okr = isinstance(src_, ast.Subscript) and ast.unparse(src_.value) == rest_var
+    elif len(mk) == 1 and rd_var is not None:
         i, c = mk[0]
         rname = ast.unparse(i.target) if i.target is not None else None
         want = {TT(f"self.model_.make_reading({key},data={rd_var}.reshape(({n},1)))") for n in n_txt}
